@@ -132,7 +132,7 @@ pub fn scenario_digest(seed: u64) -> u64 {
 
 pub fn run(p: &Params) -> Report {
     let mut rep = Report::new("C03");
-    rep.rule = "cases = (state, set of transactions, proposer action): sets of 1-5 members under ALL permutations (every permutation on every rayon pool of 1/2/4/16 threads up to 4 members, on the 1-thread pool and a rotating second pool for 5), sets of up to 16 (thorough: 40) members under 10 (thorough: 24) random permutations; members independent, chained, DAG-shaped, with one invalid member, with a duplicate. All outcomes (accepted?, sealed header) must be equal, and equal to applying the members one at a time in dependency order; the block built from the outcome is applied to the parent 6 times with its HashSet rebuilt (fresh iteration order) and must give the same header every time; a seeded scenario is re-run in 2 fresh processes and must give the same digest. Non-trivial = set with >= 2 members; distinct by member hashes. The thorough tier repeats the workload under ThreadSanitizer".into();
+    rep.rule = "cases = (state, set of transactions, proposer action): sets of 1-5 members under ALL permutations (every permutation on every rayon pool of 1/2/4/16 threads up to 4 members, on the 1-thread pool and a rotating second pool for 5), sets of up to 16 (thorough: 40) members under 10 (thorough: 24) random permutations; members independent, chained, DAG-shaped, with one invalid member, with a duplicate. All outcomes (accepted?, sealed header) must be equal, and equal to applying the members one at a time in dependency order; the block built from the outcome is applied to the parent 6 times with its HashSet rebuilt (fresh iteration order) and must give the same header every time; one block of 600 (thorough: 1400) transactions half of which spend the other half's outputs is applied 6 times; a seeded scenario is re-run in 2 fresh processes and must give the same digest. Non-trivial = set with >= 2 members; distinct by member hashes. The thorough tier repeats the workload under ThreadSanitizer".into();
     let total = p.n(120, 4000);
     let mine = p.share(total);
     let mut rng = Rng::new(p.shard_seed() ^ 0xC03);
@@ -319,6 +319,59 @@ pub fn run(p: &Params) -> Report {
             }
             if rep.samples.len() < 4 && n >= 3 {
                 rep.sample(json!({"set": labels, "class": cls, "permutations": perms.len(), "pools": [1, 2, 4, 16], "distinct_outcomes": distinct.len(), "accepted": first.is_some()}));
+            }
+        }
+    }
+    // a large block: hundreds of transactions half of which spend outputs created by the other half
+    if p.shard == 1 % p.nshards && p.only_case.is_none() {
+        let n_pairs = if p.thorough { 700 } else { 300 };
+        let mut w = World::fabricated(p.seed ^ 0xB16, melstructs::NetID::Custom02, 50, 0, 0);
+        let at = addr_of(&always_true_cov());
+        let mut txs: Vec<Transaction> = vec![];
+        for i in 0..n_pairs {
+            let f = Transaction {
+                kind: melstructs::TxKind::Faucet,
+                inputs: vec![],
+                outputs: vec![melstructs::CoinData { covhash: at, value: melstructs::CoinValue(1000 + i as u128), denom: melstructs::Denom::Mel, additional_data: bytes::Bytes::new() }],
+                fee: melstructs::CoinValue(0),
+                covenants: vec![],
+                data: bytes::Bytes::from((i as u64).to_be_bytes().to_vec()),
+                sigs: vec![],
+            };
+            let child = Transaction {
+                kind: melstructs::TxKind::Normal,
+                inputs: vec![f.output_coinid(0)],
+                outputs: vec![melstructs::CoinData { covhash: at, value: melstructs::CoinValue(1000 + i as u128), denom: melstructs::Denom::Mel, additional_data: bytes::Bytes::new() }],
+                fee: melstructs::CoinValue(0),
+                covenants: vec![bytes::Bytes::from(always_true_cov())],
+                data: bytes::Bytes::new(),
+                sigs: vec![],
+            };
+            txs.push(f);
+            txs.push(child);
+        }
+        let labels = vec!["large-block".to_string(); txs.len()];
+        let ev = w.apply_batch(txs.clone(), labels);
+        rep.eval();
+        if !ev.accepted() {
+            rep.violate("C03|batch-rejects-what-sequential-accepts|apply_tx_batch|large-dependent-batch", "a batch of faucet/child pairs in dependency order was rejected".into(), json!({"pairs": n_pairs}));
+        } else {
+            let sev = w.seal_next(None);
+            if let (None, Some(parent), Some(child)) = (sev.panic, w.prev_tip.clone(), w.tip.clone()) {
+                let blk = child.to_block();
+                let mut outcomes: HashSet<Option<[u8; 32]>> = HashSet::new();
+                for _ in 0..6 {
+                    rep.eval();
+                    rep.count("apply_block replays of a large block");
+                    let b = Block { header: blk.header, transactions: blk.transactions.iter().cloned().collect(), proposer_action: blk.proposer_action };
+                    let pp = parent.clone();
+                    outcomes.insert(guarded(move || pp.apply_block(&b).ok().map(|s| s.header().hash().0)).unwrap_or(Some([0xee; 32])));
+                }
+                rep.nontrivial(fnv(&blk.header.hash().0));
+                rep.sample(json!({"large_block": {"transactions": txs.len(), "in_block_spends": n_pairs, "replays": 6, "distinct_results": outcomes.len()}}));
+                if outcomes.len() != 1 || outcomes.iter().next().cloned().flatten() != Some(child.header().hash().0) {
+                    rep.violate("C03|block-result-varies|apply_block|large-block-with-in-block-spends", format!("a valid block of {} transactions gave {} different results over 6 applications (or was rejected)", txs.len(), outcomes.len()), json!({"transactions": txs.len(), "accepted_results": outcomes.iter().filter(|o| o.is_some()).count()}));
+                }
             }
         }
     }
